@@ -260,11 +260,15 @@ class AfterSearch(RuleAnalysis):
         return [fact]
 
     def branch(self, test, fact):
-        if fact == "searched" and isinstance(test, ast.Compare) and isinstance(test.comparators[0], (ast.Constant, ast.UnaryOp)) and ast.unparse(test.comparators[0]) == "-1":
-            if isinstance(test.ops[0], ast.NotEq):
-                return ["found"], ["notfound"]
-            if isinstance(test.ops[0], ast.Eq):
-                return ["notfound"], ["found"]
+        if fact == "searched":
+            from sa.norm import found_test
+            names = {x.id for x in ast.walk(test) if isinstance(x, ast.Name)}
+            for v in names:
+                hit = found_test(test, v)
+                if hit is True:
+                    return ["found"], ["notfound"]
+                if hit is False:
+                    return ["notfound"], ["found"]
         return [fact], [fact]
 
 
@@ -282,10 +286,22 @@ def check_early(eng, run):
     # found-but-too-long dominates the slice that returns the frame (read_until) / the split (json)
     ru = db.fn("serializers.tools:GeneratorStreamReader.read_until")
     found_vars = {k for k, vs in assignments(ru).items() for v in vs if isinstance(v, ast.Call) and _cname(v) == "find"}
-    test = next((n for n in own_nodes(ru.node) if isinstance(n, ast.If) and isinstance(n.test, ast.Compare) and dotted(n.test.left) in found_vars and "limit" in ast.unparse(n.test) and any(isinstance(r, ast.Raise) for r in n.body)), None)
-    ret_names = {dotted(r.value) for r in own_nodes(ru.node) if isinstance(r, ast.Return) and r.value is not None}
-    slices = [n for n in own_nodes(ru.node) if isinstance(n, ast.Assign) and isinstance(n.value, ast.Subscript) and isinstance(n.value.slice, ast.Slice) and n.value.slice.lower is None and dotted(n.targets[0]) in ret_names]
-    ok = test is not None and bool(slices) and all(test.lineno < s.lineno for s in slices)
+    from sa.norm import cmp_canon, lin_resolved
+    limit_names = {a.arg for a in ru.params() if "limit" in a.arg}
+    test = None
+    for n in own_nodes(ru.node):
+        if isinstance(n, ast.If) and any(isinstance(r, ast.Raise) for r in n.body):
+            c = cmp_canon(ru, n.test)
+            if c is not None and c[1] in (">", ">=") and any(c[0].get(v) == 1 for v in found_vars) and any(c[0].get(l_) == -1 for l_ in limit_names) and len([k for k in c[0] if k]) == 2:
+                test = n
+    # every slice of the accumulated data that ends at the match (`[:sepidx]`, `[:sepidx + seplen]`, through any local) comes after that test
+    slices = []
+    for n in own_nodes(ru.node):
+        if isinstance(n, ast.Subscript) and isinstance(n.slice, ast.Slice) and n.slice.lower is None and n.slice.upper is not None and isinstance(n.ctx, ast.Load):
+            lin = lin_resolved(ru, n.slice.upper)
+            if lin is not None and any(v in lin for v in found_vars):
+                slices.append(n)
+    ok = test is not None and bool(slices) and all(test.lineno < s_.lineno for s_ in slices)
     if not ok:
         run.finding("C07.early", ru, test or ru.node, "read_until() no longer rejects a frame whose separator was found beyond the limit before slicing it out")
     run.ob("C07.early", f"{ru.short}:found-but-too-long", ok)
